@@ -3,7 +3,8 @@ CHECK = {
                suite("global", "c06", 5000, 50000, stdin=True, args=["-mode", "g"]),
                suite("faults", "c06", 6000, 80000, stdin=True, args=["-mode", "tf"]),
                suite("recover", "c06", 2500, 30000, stdin=True, args=["-mode", "tr"]),
-               suite("filters", "c06", 4000, 60000, stdin=True, args=["-mode", "fs"])],
+               suite("filters", "c06", 4000, 60000, stdin=True, args=["-mode", "fs"]),
+               suite("rpc", "c06", 2500, 40000, stdin=True, args=["-mode", "tp"])],
     "gen": [{"pkg": "extract_c06", "out": "lean/ClusterVerif/Gen/C06.lean"}],
     "lean_sources": ["ClusterVerif/Model/C06.lean", "ClusterVerif/Spec/C06.lean", "ClusterVerif/Lemmas/C06.lean",
                      "ClusterVerif/Lemmas/C06F.lean", "ClusterVerif/Gen/C06.lean", "ClusterVerif/Model/C06S.lean",
@@ -18,6 +19,8 @@ CHECK = {
             "and right after; the fault distribution is the arm histogram (f-*, unknown-type, incoherent-daemon, g?-peers-fails, g?-timeout, ...); "
             "filters cases = a filter text (0-4 tokens: status names, near misses, empty tokens, spaces, odd separators), a mask (0, single, composite, "
             "almost-composite, random 13-bit, with bits above 2^13 or bit 0), a status, local or not; "
+            "rpc cases = a tracker case with at most five filters, every view read through Cluster.*Local (local RPC), PinTracker.* (from a second "
+            "host), Cluster.StatusAll/Status (one-member cluster); "
             "one splitmix64 stream per case index; non-trivial = non-empty universe with the daemon answering / non-follower; distinct by case line",
     "trusted_base": ["scripted IPFSConnector RPC service stands in for ipfshttp (PinLsCid asks for the pin's own type, PinLs(type) lists that type; it keeps type "
                      "strings and turns them into statuses with the real IPFSPinStatusFromString; scripted failures per call)",
@@ -25,7 +28,9 @@ CHECK = {
                      "fake consensus (Peers, State) behind the real Cluster; member trackers answer canned replies over real gorpc/libp2p loopback streams",
                      "verif_export.go wrapper VerifNewCluster",
                      "filters suite: recording Cluster RPC service behind the real rest.API and the real REST client over loopback HTTP; "
-                     "url.QueryEscape / URL.Query() taken as the identity on the filter text"],
+                     "url.QueryEscape / URL.Query() taken as the identity on the filter text",
+                     "rpc suite: a Cluster assembled by VerifNewCluster (host, tracker, one-member fake consensus) with its real newRPCServer; "
+                     "two loopback libp2p hosts"],
     "assumptions": ["quiescent = the last operation of a CID is the one the pinset calls for and the daemon answers pin/ls",
                     "the tracker's OperationRemote (housekeeping unpin for pins allocated elsewhere) is not a 'last pin or unpin' of the statement",
                     "a member's reply carries its own peer ID",
@@ -53,7 +58,13 @@ META = {
             "listing for f|g is the union of the listings), Split(Join(names)) gives the names back; which tracker method each RPC entry point calls and "
             "with which argument is regenerated (rpc_api.go, cluster.go). The real TrackerStatusFromString / String / Match, the real REST handler "
             "(GET /pins?filter=) and the real REST client are run on thousands of texts and masks: the Spec (text = union of named statuses, refusal, "
-            "print-and-parse keeps the named statuses, the filter that reaches Cluster.StatusAll[Local]) and equality with the model.",
+            "print-and-parse keeps the named statuses, the filter that reaches Cluster.StatusAll[Local]) and equality with the model. "
+            "Round 8b: print-then-parse is proved for EVERY mask and every map order (parse(print f) = f & named bits; the or of all table values "
+            "contained in f is f & 8190) and so is the filter the Cluster RPC receives from the REST client (named statuses, or refused - never "
+            "'all'); Cluster.StatusAll shows only members for every member list / reply table, and for a one-member cluster it is the member's "
+            "own listing. Suite rpc: the same tracker cases read through the REAL RPC server of a Cluster (newRPCServer with DefaultRPCPolicy): "
+            "Cluster.StatusLocal / StatusAllLocal by local RPC (judged by the whole tracker Spec and the model), PinTracker.Status / StatusAll "
+            "called by a second libp2p host over a stream, Cluster.StatusAll / Status of the one-member cluster - all routes must show the same view.",
     "note": "Trusted: Lean kernel (+propext, Classical.choice, Quot.sound), hand-written model/spec, the Go harness with its scripted daemon and canned "
             "member replies. Known findings K02/K02f (Status says pin_error where StatusAll says unexpectedly_unpinned), K04 (unreachable member cluster_error for every "
             "listed CID), K06e/K06r (status remote with an error text after a failed housekeeping unpin) are reported as KNOWN-FINDING.",
